@@ -927,6 +927,11 @@ func TestVerifC14Sequences(t *testing.T) {
 				}
 			}
 		}
+		if r == 0 {
+			// 300 000 distinct hosts: a "seen" set that is keyed by anything shorter than the id (a 32-bit hash...)
+			// merges some of them (birthday bound: ~10 expected collisions)
+			cases = append(cases, c14seqCase{Kind: "dedup", N: 300000, IDs: 300000, Pattern: "unique", ChanCap: 1000, Seed: rng.Int63()})
+		}
 		for _, pat := range []string{"uniform", "bursts", "passes", "aba"} {
 			for _, idn := range []int{1, 2, 3, 7, 254, 5000} {
 				for _, n := range []int{1, 10, 1000, 20000} {
